@@ -534,6 +534,24 @@ def gen_client2(ctx, hist):
                          {"t": "pull", "name": "ns/m:t", "manifest": {"layers": [{"blob": 0}, {"blob": 1}]}, "script": {}, "clean": True, "timeout_ms": 9000}]
                 out.append({"op": "hist", "klass": "client2-corpus-%d-consecutive-%s-%s" % (k, where.split(":")[0], "recovers-late" if recover else "never-recovers"), "client2": True,
                             "blobs": [hx(A0), hx(A1)], "steps": steps, "cost": 40, "timeout": 200})
+    # a layer fetched by this client is removed by an OLD handler (legacy pull that prunes the replaced layer, legacy delete);
+    # this client's per-chunk records (blobs named by the digest of "v1 pull chunksum ...") stay behind; then client2 pulls
+    # of the original model, k retries, a restart (PruneLayers), one more attempt
+    R0, R1, R2 = b"records layer zero", b"records layer one (gets removed)", b"records layer two"
+    orig = {"layers": [{"blob": 0}, {"blob": 1}]}
+
+    def c2pull(clean=False, **kw):
+        st = {"t": "pull", "name": "ns/m:t", "manifest": json.loads(json.dumps(orig)), "script": {}, "timeout_ms": 4000}
+        if clean:
+            st["clean"] = True
+        st.update(kw)
+        return st
+    for kind, removal in [("legacy-pull-prunes", [dict(pull_step("ns/m:t", [{"blob": 0}, {"blob": 2}]), endpoint="legacy")]),
+                          ("legacy-delete", [{"t": "delete", "name": "ns/m:t"}])]:
+        steps = [c2pull()] + removal + [c2pull(), c2pull(stream=False), c2pull(), {"t": "prune"}, c2pull(clean=True)]
+        out.append({"op": "hist", "klass": "client2-layer-removed-by-old-handler-" + kind, "client2": True, "blobs": [hx(R0), hx(R1), hx(R2)], "steps": steps, "cost": 30, "timeout": 200})
+        steps = [c2pull()] + removal + [c2pull(), c2pull(), c2pull(clean=True)]
+        out.append({"op": "hist", "klass": "client2-layer-removed-by-old-handler-" + kind + "-no-restart", "client2": True, "blobs": [hx(R0), hx(R1), hx(R2)], "steps": steps, "cost": 30, "timeout": 200})
     # k consecutive retryable failures within one request, then recovery (the handler must end in success with the model
     # stored) or not (the client gives up: failure, the old model still resolves)
     b = [rnd_blob(rng) for _ in range(3)]
@@ -1084,8 +1102,11 @@ def monitor_hist(ctx, c, o):
                                   "the 63 s retry on the implementation itself is run by the thorough tier"),
                               dict(replay, step=si))
             elif sc.get("clean") and si == len(c["steps"]) - 1 and not so["success"]:
-                ctx.violation({"class": "retry-impossible", "cause": "other"},
-                              "after the failed attempts of this history, clean attempts against a fault-free registry keep failing: %s" % so.get("error"),
+                old = c.get("client2") and any(s2.get("endpoint") == "legacy" or s2["t"] == "delete" for s2 in c["steps"][:si])
+                ctx.violation({"class": "retry-impossible", "cause": "layer-removed-by-old-handler" if old else "other"},
+                              "after the failed attempts of this history, clean attempts against a fault-free registry keep failing: %s%s" % (
+                                  so.get("error"), " (client2 pull after an old handler removed a layer this client had fetched: its per-chunk records outlive the blob, "
+                                  "every chunk counts as fetched, an empty scratch file fails the digest check; only a pruning restart clears the records)" if old else ""),
                               dict(replay, step=si))
         if sc["t"] == "par":
             succ_names = set(p["name"] for p, r in zip(sc["pulls"], so["results"]) if r["success"])
